@@ -6,10 +6,8 @@ import (
 	"fmt"
 	"os"
 	"testing"
-
-	"github.com/pion/dtls/v3/pkg/protocol/extension"
-	extension13 "github.com/pion/dtls/v3/pkg/protocol/extension/dtls13"
-	"github.com/pion/dtls/v3/pkg/protocol/handshake"
+	"testing/synctest"
+	"time"
 )
 
 // TestVF_Debug: ad-hoc scenario runner used while triaging (not registered as a check).
@@ -17,20 +15,31 @@ func TestVF_Debug(t *testing.T) {
 	if os.Getenv("VERIF_DEBUG") == "" {
 		t.Skip("debug only")
 	}
-	cr := &handshake.MessageCertificateRequest{}
-	fmt.Println("certreq odd:", cr.Unmarshal([]byte{1, 64, 0, 3, 4, 3, 4, 0, 0}), cr.SignatureHashAlgorithms)
-	sg := &extension.SupportedGroups{}
-	fmt.Println("groups odd:", sg.UnmarshalData([]byte{0, 3, 0, 29, 0}), sg)
-	sa := &extension.SignatureAlgorithms{}
-	fmt.Println("sigalgs odd:", sa.UnmarshalData([]byte{0, 3, 4, 3, 4}), sa)
-	ca := &extension.CertificateSignatureAlgorithms{}
-	fmt.Println("certsigalgs odd:", ca.UnmarshalData([]byte{0, 3, 4, 3, 4}), ca)
-	us := &extension.SRTPOffer{}
-	fmt.Println("srtp odd:", us.UnmarshalData([]byte{0, 3, 0, 1, 0, 0}), us)
-	ov := &extension13.OfferedVersions{}
-	fmt.Println("versions odd:", ov.UnmarshalData([]byte{3, 0xfe, 0xfc, 0xfe}), ov)
-	ch := &handshake.MessageClientHello{}
-	raw := append([]byte{0xfe, 0xfd}, make([]byte, 32)...)
-	raw = append(raw, 0, 0, 0, 3, 0xc0, 0x2b, 0xc0, 1, 0)
-	fmt.Println("clienthello odd suites:", ch.Unmarshal(raw), ch.CipherSuiteIDs)
+	vfGetPKI()
+	synctest.Test(t, func(t *testing.T) {
+		cfg := vfBaseCfg(vfSuiteByName("ECDSA-GCM128"), "ecdsa")
+		co, so := cfg.Options(nil, nil)
+		n := vfNewNet()
+		p, _ := vfNewPair(n, co, so)
+		fmt.Println(p.Handshake(time.Minute))
+		p.C.StartPump()
+		p.S.StartPump()
+		fmt.Println("rt:", vfRoundTrip(p, "a", time.Minute))
+		st, ok := p.S.Conn.ConnectionState()
+		fmt.Println("accepted:", st.acceptedRemoteSequence, ok, p.S.Conn.acceptedRemoteSequence.Load())
+		raw, err := st.MarshalBinary()
+		var st2 State
+		fmt.Println(err, st2.UnmarshalBinary(raw), st2.acceptedRemoteSequence, st2.remoteEpoch)
+		n2 := vfNewNet()
+		rc, err := ResumeWithOptions(&st2, n2.Endpoint("s2", vfServerAddr), vfAddr(vfClientAddr))
+		fmt.Println("resume", err)
+		fmt.Println("hs", rc.Handshake())
+		cm := vfCommon(rc)
+		fmt.Println("detectors", len(cm.ReplayDetector), rc.acceptedRemoteSequence.Load())
+		for seq := uint64(0); seq < 4; seq++ {
+			_, ok := cm.ReplayDetector[1].Check(seq)
+			fmt.Println("check", seq, ok)
+		}
+		p.Close()
+	})
 }
